@@ -37,6 +37,7 @@ ASSUMPTIONS = [
     "the engine is given an explicit null observer (the observer=None default is broken on the unchanged tree: C23's finding, not judged here)",
     "new entries are checked for kind and data/target only (C18 checks metadata); directory mtimes are never compared",
 ]
+TIME_CAP = {"thorough": 3600}  # safety net on a shared machine; a capped run is reported as non-exhaustive
 BOUNDS = {
     "quick": "uninstall: <= 2 non-default slots of 5 (5 states); replace: <= 2 non-default slots (12 states); install: <= 2 (5 states); x spellings (4 when /usr/lib/a is active) x z {none, /d/s/z, /d/z} x extra-dirs {no, yes} x order {asc, desc}",
     "thorough": "uninstall: <= 4 non-default slots (6 states); replace: <= 3; install: <= 3; same cross product, plus the offset passed with a trailing slash",
